@@ -379,6 +379,8 @@ class Workflow(metaclass=WorkflowMeta):
 
         # Validate the workflow
         self._validate()
+        if self._disable_validation:
+            self._build_catch_error_routing()
 
         # Extract run_id before passing remaining kwargs to start event
         run_id = kwargs.pop("run_id", None)
@@ -433,6 +435,25 @@ class Workflow(metaclass=WorkflowMeta):
             force=True,  # Explicit validate() call should always run
         )
 
+    def _build_catch_error_routing(self) -> None:
+        """Populate the @catch_error routing tables without validating the graph.
+
+        Failure routing is runtime configuration, not a graph check: with
+        ``disable_validation=True`` nothing else fills the tables, and exhausted
+        failures would never be handed to their handler.
+        """
+        from .representation.validate import _collect_catch_error_handlers
+
+        try:
+            (
+                self._catch_error_handlers,
+                self._handler_for_step,
+            ) = _collect_catch_error_handlers(self._step_configs())
+        except WorkflowValidationError:
+            # An inconsistent handler set is a validation finding; with
+            # validation disabled it is not reported and nothing is routed.
+            self._catch_error_handlers, self._handler_for_step = {}, {}
+
     def _validate(
         self,
         *,
@@ -441,20 +462,6 @@ class Workflow(metaclass=WorkflowMeta):
         force: bool = False,
     ) -> bool:
         if self._disable_validation and not force:
-            # Failure routing to @catch_error handlers is runtime configuration, not a
-            # graph check: keep the routing tables populated even when validation is
-            # skipped, otherwise exhausted failures are never handed to their handler.
-            from .representation.validate import _collect_catch_error_handlers
-
-            try:
-                (
-                    self._catch_error_handlers,
-                    self._handler_for_step,
-                ) = _collect_catch_error_handlers(self._step_configs())
-            except WorkflowValidationError:
-                # An inconsistent handler set is a validation finding; with
-                # validation disabled it is not reported and nothing is routed.
-                self._catch_error_handlers, self._handler_for_step = {}, {}
             return False
         stale = self._validated_version != self.__class__._step_functions_version
         if not force and not stale and self._validation_result is not None:
